@@ -96,3 +96,20 @@ def exclusion_with_conditional_target_examples():
         g['feat'] = ['cc', 'exclusion', 'exclusion_with_conditional_target']
         out.append(g)
     return out
+
+
+def intermediate_infeasibility_example():
+    """C1@1 {2,3,5}, C2@3 {4,6,7} (1-4 incompatible), grouping source 10 = {8 (under 6, exactly 1), 9 (permanent, 0..1)},
+    target 11 (under 5, degree 0 or 2): after C1 = 3 the partial resolution is reported infeasible (the grouping source
+    currently needs a connection, no target exists) although C2 = 7 removes member 8 and makes zero connections valid.
+    An encoder must not give up on such a partial resolution."""
+    from harness.gd import empty
+    g = empty(7)
+    g['n'] = 11
+    g['nodes'] += [node('conn', dl=[1]), node('conn', dmin=0, dmax=1, rep=True), node('grp', members=[8, 9]), node('conn', dl=[0, 2])]
+    g['der'] = [[1, 9], [4, 6], [5, 3], [5, 11], [6, 8]]
+    g['ch'] = [{'origin': 1, 'opts': [2, 3, 5]}, {'origin': 3, 'opts': [4, 6, 7]}]
+    g['inc'] = [[1, 4]]
+    g['cc'] = [{'src': [10], 'tgt': [11], 'excl': []}]
+    g['feat'] = ['cc', 'grouping', 'intermediate_infeasibility']
+    return g
